@@ -116,6 +116,12 @@ func (q *rpcQueue) Pop(ctx context.Context) (*RPC, error) {
 		// Wake up all the waiting routines. The only routine that correponds
 		// to this Pop call will return from the function. Note that this can
 		// be expensive, if there are too many waiting routines.
+		//
+		// The lock orders the broadcast after the Pop call has started to
+		// wait; otherwise a cancellation that lands between its context check
+		// and its Wait would be lost and Pop would block until the next push.
+		q.queueMu.Lock()
+		defer q.queueMu.Unlock()
 		q.dataAvailable.Broadcast()
 	})
 	defer unregisterAfterFunc()
